@@ -790,10 +790,29 @@ fn decode(c: &Case) -> bool {
         }
         23 => {
             use coset::CborSerializable;
-            match coset::CoseKey::from_slice(b) {
+            let a = match coset::CoseKey::from_slice(b) {
                 Ok(k) => passkey_authenticator::public_key_der_from_cose_key(&k).is_ok(),
                 Err(_) => false,
-            }
+            };
+            // a key value built member by member, as an application assembling a `CoseKey` itself does
+            // (the parser refuses repeated labels; the struct's parameter list has room for them)
+            let b2 = match oracle::cbor_parse(b) {
+                Ok(Cbor::Map(m)) if m.len() < 64 => {
+                    use coset::iana::EnumI64;
+                    let mut key = coset::CoseKey::default();
+                    for (k, v) in m {
+                        match (oracle::cbor_int(&k), oracle::cbor_int(&v)) {
+                            (Some(1), Some(t)) => key.kty = coset::iana::KeyType::from_i64(t as i64).map(coset::KeyType::Assigned).unwrap_or(coset::KeyType::Assigned(coset::iana::KeyType::Reserved)),
+                            (Some(3), Some(t)) => key.alg = coset::iana::Algorithm::from_i64(t as i64).map(coset::Algorithm::Assigned),
+                            (Some(l), _) => key.params.push((coset::Label::Int(l as i64), v)),
+                            _ => {}
+                        }
+                    }
+                    passkey_authenticator::public_key_der_from_cose_key(&key).is_ok()
+                }
+                _ => false,
+            };
+            a || b2
         }
         24 => passkey_client::valid_fingerprint(&text).is_ok(),
         25 => {
